@@ -111,7 +111,8 @@ def _factory(params, env=None):
                     side, oi = first
                 else:
                     side = e.choose("side", 2)
-                    oi = e.choose("op", len(OPS))
+                    sub = params.get("subset")
+                    oi = sub[e.choose("op", len(sub))] if sub else e.choose("op", len(OPS))
                 kind, src, dst = OPS[oi]
                 rt = roots[side]
 
@@ -253,6 +254,12 @@ def jobs(tier):
                 for oi in (9, 11, 13):
                     out.append({"harness": "confine", "params": {"flavour": f, "variant": "by-path", "nops": 2, "slots": 1, "first": [side, oi]},
                                 "label": "%s/by-path/2-ops/first=%d:%s" % (f, side, "-".join(str(x) for x in OPS[oi] if x))})
+    for f in (("oid",) if q else ("oid", "oid-filt")):
+        for side in (0, 1):
+            for oi in (9, 11):
+                # move-out racing with an edit or a delete of the peer copy, 2 slots after each operation (the move-out event may arrive late)
+                out.append({"harness": "confine", "params": {"flavour": f, "variant": "by-path", "nops": 2, "slots": 2, "first": [side, oi], "subset": [1, 2]},
+                            "label": "%s/by-path/move-out-race/first=%d:%s" % (f, side, "-".join(str(x) for x in OPS[oi] if x))})
     out.append({"harness": "confine~no-boundary", "params": {"flavour": "oid", "variant": "by-path", "nops": 1, "slots": 1, "first": [0, 6]},
                 "label": "confine~no-boundary", "role": "sens"})
     return out
